@@ -22,6 +22,8 @@ PROGS = {
     "parse_fail_late": ('@org $c000\nq: @ds 200\n@db "some bytes"\n  @bogus 1\n', False),
     "link_fail_undef": ('@db 1, 2, 3\n@dw nosuch\n@db 4\n', False),
     "link_fail_assert": ('@db 1, 2, 3\n@assert fwd, "late assertion"\n@db 4, 5\n@defn fwd, 0\n', False),
+    # an assertion that only the linker can look at and that has no value there (division by zero): the link fails
+    "link_fail_unsolved": ('@db 1, 2\n@assert 10 / zz1 == 2, "no value"\n@db 3\n@defl zz1, 0\n', False),
     "link_fail_range": ('@db 1, 2, 3\n@db big\n@db 4, 5\n@defn big, 300\n', False),
     "unsolved_symbol": ('@db 7\n@defl zz, @sizeof qq\nqq:\n@db 8\n', False),
 }
@@ -366,6 +368,28 @@ def run(ck):
                             {"mode": "cli", "argv": ["az65"] + argv, "files": {"main.asm": PROGS["ok"][0]}, "expected": "non-zero exit and a message"})
                 finally:
                     shutil.rmtree(d, ignore_errors=True)
+    # ---- standard output is a pipe whose reader has gone: the image is lost, the run fails with a message
+    for arch in asmk.ARCHES:
+        for prog in ("ok", "ok_big"):
+            d = tempfile.mkdtemp(prefix="az65_c15_")
+            try:
+                open(os.path.join(d, "main.asm"), "w").write(PROGS[prog][0])
+                r_fd, w_fd = os.pipe()
+                os.close(r_fd)
+                try:
+                    p = subprocess.run([az, arch, "main.asm"], cwd=d, stdout=w_fd, stderr=subprocess.PIPE, timeout=60)
+                finally:
+                    os.close(w_fd)
+                ck.evaluations += 1
+                ck.nontriv("closedpipe:%s:%s" % (arch, prog))
+                ck.count("closed-pipe:rc=%s" % p.returncode)
+                if p.returncode == 0 or (p.returncode > 0 and not p.stderr.strip()) or b"panicked" in p.stderr:
+                    ck.violation("`az65 %s main.asm` (program %s) with standard output on a pipe nobody reads: exit status %s, stderr %r" % (
+                        arch, prog, p.returncode, p.stderr.decode("utf8", "replace")[:120]),
+                        {"mode": "cli", "argv": ["az65", arch, "main.asm"], "stdout": "a pipe whose read end is closed", "files": {"main.asm": PROGS[prog][0]},
+                         "expected": "non-zero exit (and a message unless killed by the signal)"})
+            finally:
+                shutil.rmtree(d, ignore_errors=True)
     # ---- a destination that cannot take the bytes (a full device): the run fails, with a message, whatever the size
     # of the image and wherever it goes (the kernel's /dev/full accepts the open and fails every write)
     if os.path.exists("/dev/full"):
